@@ -317,6 +317,19 @@ pub fn cycle_specs() -> Vec<(String, Value)> {
         mk("self-in-4-nested-macro-bodies", vec![("main", "[1].map(a, [1].filter(b, [1].all(c, [1].exists(d, main))))")]),
         mk("self-in-8-nested-macro-bodies", vec![("main", "[1].map(a, [1].map(b, [1].map(c, [1].map(d, [1].map(e, [1].map(f, [1].map(g, [1].map(h, main))))))))")]),
         mk("mutual-through-nested-macro-bodies", vec![("main", "[1].map(x, [1].reduce(acc, y, a, 0))"), ("a", "[1].exists_one(x, [1].filter(y, main))")]),
+        // the same bodies over a map receiver: the macros have a separate code path per receiver kind
+        // (round 5, C01-m9: filter over a map started its body interpreter with a fresh depth budget)
+        mk("self-in-map-body-over-map", vec![("main", "{'k': 1}.map(e, main)")]),
+        mk("self-in-map3-body-over-map", vec![("main", "{'k': 1}.map(e, true, main)")]),
+        mk("self-in-map3-pred-over-map", vec![("main", "{'k': 1}.map(e, size(main) >= 0, e)")]),
+        mk("self-in-filter-body-over-map", vec![("main", "{'k': 1}.filter(e, size(main) >= 0)")]),
+        mk("self-in-all-body-over-map", vec![("main", "{'k': 1}.all(e, main)")]),
+        mk("self-in-exists-body-over-map", vec![("main", "{'k': 1}.exists(e, main)")]),
+        mk("self-in-exists-one-body-over-map", vec![("main", "{'k': 1}.exists_one(e, main)")]),
+        mk("self-in-reduce-body-over-map", vec![("main", "{'k': 1}.reduce(a, e, main, 0)")]),
+        mk("self-in-filter-body-over-bound-map", vec![("main", "m.filter(e, main)")]),
+        mk("self-in-map3-pred", vec![("main", "[1].map(e, main, e)")]),
+        mk("mutual-through-map-receivers", vec![("main", "{'a': 1, 'b': 2}.filter(e, a)"), ("a", "{'c': 3}.map(e, main)")]),
     ]
 }
 
